@@ -2,6 +2,7 @@ package keeper
 
 import (
 	"context"
+	"slices"
 
 	"cosmossdk.io/collections"
 	errorsmod "cosmossdk.io/errors"
@@ -28,9 +29,17 @@ func (k Keeper) Lock(ctx context.Context, reqs []*goattypes.LockRequest) error {
 		updates[req.Validator] = updates[req.Validator].Add(coin)
 	}
 
+	// apply in a fixed order: when one of the validators fails, the work done (gas used,
+	// which error is reported) must not depend on Go's randomized map iteration
+	validators := make([]common.Address, 0, len(updates))
+	for validator := range updates {
+		validators = append(validators, validator)
+	}
+	slices.SortFunc(validators, func(a, b common.Address) int { return a.Cmp(b) })
+
 	sdkctx := sdktypes.UnwrapSDKContext(ctx)
-	for validator, coins := range updates {
-		if err := k.lock(sdkctx, validator, coins); err != nil {
+	for _, validator := range validators {
+		if err := k.lock(sdkctx, validator, updates[validator]); err != nil {
 			return err
 		}
 	}
